@@ -365,13 +365,18 @@ def run_extension(name, tier, cov, v=None, forward=None):
 
 
 def write_evidence(pid, tier, coverage, wall_s, violations, assumptions=None, level="model_checking"):
-    os.makedirs(os.path.join(VERIF, "evidence"), exist_ok=True)
+    edir = os.path.join(VERIF, "evidence")
+    if os.path.realpath(REPO) != "/repo" or not re.fullmatch(r"C\d\d", pid):
+        # a run against a private worktree (mutation testing) or of an extension module run on its
+        # own: the registered evidence files describe /repo itself and only the listed properties
+        edir = os.path.join(tempfile.gettempdir(), "verif-evidence-other")
+    os.makedirs(edir, exist_ok=True)
     ev = {"property_id": pid, "tier": tier, "seed": seed(), "level": level, "coverage": coverage,
           "assumptions": assumptions or [], "wall_s": round(wall_s, 2), "violations": violations}
-    tmp = os.path.join(VERIF, "evidence", pid + ".json.tmp")
+    tmp = os.path.join(edir, pid + ".json.tmp")
     with open(tmp, "w") as fh:
         json.dump(ev, fh, indent=1, default=str)
-    os.replace(tmp, os.path.join(VERIF, "evidence", pid + ".json"))
+    os.replace(tmp, os.path.join(edir, pid + ".json"))
 
 
 def read_ndjson(path):
